@@ -976,11 +976,16 @@ fn main() {
             println!("NOTE (C16, not a C29 verdict): generator outcome {k} on {v} worlds");
         }
     }
-    // distinct (slot, fragment, style, layout, shape) placements whose world was generated and scanned
+    // distinct fragment placements (one fragment in a slot, or an unordered pair of placements;
+    // two fragments in one slot count per order) whose world was generated and scanned
     let mut distinct = BTreeSet::new();
     for s in &specs {
-        for (sl, f) in &s.placed {
-            distinct.insert((s.shape, s.style, s.layout, *sl, *f));
+        if !s.placed.is_empty() {
+            let mut p = s.placed.clone();
+            if p.len() == 2 && p[0].0 != p[1].0 {
+                p.sort();
+            }
+            distinct.insert((s.shape, s.style, s.layout, p));
         }
     }
     let mut samples = Vec::new();
@@ -992,7 +997,7 @@ fn main() {
     let coverage = json!({
         "evaluations": n,
         "distinct_nontrivial": distinct.len(),
-        "rule": "distinct (world shape, comment style, layout, slot, fragment) placements whose world was generated in both output modes and scanned; worlds without a fragment are not counted",
+        "rule": "distinct (world shape, comment style, layout, set of (slot, fragment) placements) whose world was generated in both output modes and scanned; the fragment-free baseline worlds are not counted",
         "exhaustive": true,
         "bounds": {
             "fragments": FRAGMENTS.iter().map(|f| json!({"id": f.id, "lines": f.lines})).collect::<Vec<_>>(),
